@@ -9,7 +9,7 @@ Driver for the vector-index model (C29).  Requests (one per line):
                                   S evaluated on the *given* observations, one per search op
 
   ops := op(;op)*
-  op  := x:<dim>.<c|l> | n:<0|1>:<vec|_> | s:<h>:<vec|_> | r:<h> | a:<h> | u:<h> | d:<h>
+  op  := x:<dim>.<c|l|i> | n:<0|1>:<vec|_> | s:<h>:<vec|_> | r:<h> | a:<h> | u:<h> | d:<h>
        | q:<k>:<vec>:<raw|_>
   vec := int(,int)*            raw := id(,id)*   (the ids HNSW returned; used above 128 entries)
   ans := <class>|<ids>|<nodes>|<size>     ids := - | id(,id)*
@@ -31,6 +31,7 @@ def parseCmd? (s : String) : Option Cmd :=
   | ["x", a] => match a.splitOn "." with
       | [d, "c"] => do pure (.op (.mkIndex (← d.toNat?) .cosine))
       | [d, "l"] => do pure (.op (.mkIndex (← d.toNat?) .l2))
+      | [d, "i"] => do pure (.op (.mkIndex (← d.toNat?) .ip))
       | _ => none
   | ["n", l, v] => do
       let inL ← (if l == "1" then some true else if l == "0" then some false else none)
